@@ -27,7 +27,8 @@
   lambdas are covered as long as the enclosing same-named invocation has no deferred work open at that moment (no span /
   capture tracepoint on it, or the gate refused it) — in particular every program whose recursive functions carry no
   span / capture tracepoint.  `c15_noclash_implies_weak`: `NoClash` implies it; `c15_weak_witness`: strictly weaker,
-  and still violated by the known finding's tree.
+  and still violated by the known finding's tree.  The captured-value theorems have weak forms too
+  (`c15_capture_first_exit_weak_partial`, `c15_capture_value_weak_partial`).
 
   Scope, stated as it is:
   * `AllNamed cfg` — every method location has a name (the property's "method tracepoint with a method name").  A
@@ -414,6 +415,56 @@ theorem c15_capture_value_partial (cfg : List Trig) (hnamed : AllNamed cfg) (pat
     cases x <;> rfl
   rw [he] at h
   exact h
+
+/-- **where a call-opened context completes, weaker recursion hypothesis** (partial: named locations, `NoClashW`,
+    `NoStackStrict`) — as `c15_capture_first_exit_partial`, for an invocation run on any stack all of whose contexts
+    belong to enclosing invocations recorded in `pend` (the keys with work pending), under `NoClashW … pend`: recursion
+    below or around it is allowed as long as no same-named enclosing invocation has work pending. -/
+theorem c15_capture_first_exit_weak_partial (cfg : List Trig) (hnamed : AllNamed cfg) (i : Inv) (p : List Nat)
+    (stk : List Ctx) (pend : List Key) (hc : i.NoClashW (opens cfg) p pend) (hs : i.NoStackStrict (opens cfg) p)
+    (hf : ∀ c ∈ stk, (c.file, c.func) ∈ pend) (hopen : opens cfg (i.callEvent p) = true) :
+    (run cfg (norm stk) (i.flatten p)).1 = norm stk ∧
+    Eff.closed (newCtx (cbsAt (cfg.length : Int) (actionsFor cfg) (i.callEvent p)) (i.callEvent p)) (i.firstExit p)
+      ∈ (run cfg (norm stk) (i.flatten p)).2 := by
+  obtain ⟨h1, _, h3⟩ :=
+    inv_frame_strictW (cfg.length : Int) (actionsFor cfg) (kindsOK_actionsFor cfg hnamed) i p stk pend hc hs hf
+  rw [run, runWith_norm, h1]
+  exact ⟨rfl, h3 hopen⟩
+
+/-- **captured value, weaker recursion hypothesis** (partial: named locations, `NoClashW`, `NoStackStrict`, `noCaught`)
+    — the deferred capture opened at an invocation's `call` event is completed at that invocation's `return` event
+    carrying its return value, resp. at its propagating `exception` event carrying the exception — also for a recursive
+    function, when no enclosing same-named invocation has work pending (e.g. a capture that fires on the innermost call
+    only). -/
+theorem c15_capture_value_weak_partial (cfg : List Trig) (hnamed : AllNamed cfg) (path func : String) (frame : Nat)
+    (ln : Int) (den : List Action) (body : Items) (x : Exit) (p : List Nat) (stk : List Ctx) (pend : List Key)
+    (hc : (Callbacks.Inv.mk path func frame ln den body x).NoClashW (opens cfg) p pend)
+    (hs : (Callbacks.Inv.mk path func frame ln den body x).NoStackStrict (opens cfg) p)
+    (hnc : noCaught body) (hf : ∀ c ∈ stk, (c.file, c.func) ∈ pend)
+    (hopen : opens cfg ((Callbacks.Inv.mk path func frame ln den body x).callEvent p) = true) :
+    Eff.closed (newCtx (cbsAt (cfg.length : Int) (actionsFor cfg)
+        ((Callbacks.Inv.mk path func frame ln den body x).callEvent p))
+        ((Callbacks.Inv.mk path func frame ln den body x).callEvent p))
+      (exitEvent path func frame p x)
+      ∈ (run cfg (norm stk) ((Callbacks.Inv.mk path func frame ln den body x).flatten p)).2 := by
+  have h := (c15_capture_first_exit_weak_partial cfg hnamed _ p stk pend hc hs hf hopen).2
+  have he : (Callbacks.Inv.mk path func frame ln den body x).firstExit p = exitEvent path func frame p x := by
+    simp only [Inv.firstExit]
+    rw [firstExit_noCaught body _ x hnc]
+    cases x <;> rfl
+  rw [he] at h
+  exact h
+
+/-- non-vacuity: in `innerRecTree` with a deferred capture instead of the span, the capture opened by the innermost
+    `rec` attaches that invocation's return value 0 -/
+example :
+    Eff.closed ⟨"call", "m.py", 10, "rec", [⟨0, .capture⟩], ⟨"call", "/app/m.py", 10, "rec", 0, 3, [0, 0, 0], []⟩⟩
+      ⟨"return", "/app/m.py", 12, "rec", 0, 3, [0, 0, 0], []⟩ ∈
+      (run (install [⟨.func "m.py" "rec", [⟨0, .capture⟩]⟩] []) none
+        ((Callbacks.Inv.mk "/app/m.py" "rec" 1 10 [⟨0, .capture⟩] (.line 11 [] (.call
+          (.mk "/app/m.py" "rec" 2 10 [⟨0, .capture⟩] (.line 11 [] (.call
+            (.mk "/app/m.py" "rec" 3 10 [] (.line 12 [] .nil) (.ret 12 0)) (.line 13 [] .nil))) (.ret 13 1))
+          (.line 13 [] .nil))) (.ret 13 2)).flatten [0])).2 := by decide
 
 /-- **`noCaught` is needed** (known finding `C15/caught-exception-completes`) — `f` has a deferred method capture,
     calls `g`, which raises, catches the exception, goes on and returns 9: all other hypotheses hold, the capture
